@@ -554,7 +554,7 @@ class asyncio_setup:
 TrioR3 = TObj(RUN + "trio_runner:TrioRunner", asyncio_loop=ALoop, _logger=PyLogger, _stopped=TEvent, _ready=TAny(), _trio_token=TOpt(TRef()), _submit_tasks=TOpt(Chan))
 
 
-@contract(RUN + "trio_runner:TrioRunner.register_payload", props=["C03", "C11"])
+@contract(RUN + "trio_runner:TrioRunner.register_payload", props=["C03", "C11", "C02"])
 class trio_register:
     """the payload is sent into the trio thread exactly once, or - only when the trio run is over, cancelled or its channel
     already closed (the runtime is shutting down) - discarded; NOTHING is raised in any of these states"""
@@ -562,8 +562,9 @@ class trio_register:
     has_events = True
 
     def requires(c, self, payload):
-        # published-state invariant of a runner reachable through MetaRunner._runners: token and channel are set
-        return c.And(self._trio_token != None, self._submit_tasks != None)
+        # published-state invariant of a runner reachable through MetaRunner._runners: token and channel are set (the channel by its first handle,
+        # as open_memory_channel returned it)
+        return c.And(self._trio_token != None, self._submit_tasks != None, Z.is_none(z3.Select(c.ctx.rd(c.old_heap, "clone_of"), Z.Val.id(self._submit_tasks.t))))
 
     def ensures(c, self, payload):
         ch, tok = self._submit_tasks, self._trio_token
@@ -576,6 +577,7 @@ class trio_register:
                 c.events_are(c.event("from_thread.run-finished", tok)),        # trio run is over: discarded
                 c.events_are(c.event("from_thread.run-cancelled", tok)),       # cancelled: discarded
                 c.events_are(in_trio, failed), c.events_are(same, failed)),    # channel already closed (shutting down): discarded
+            "no-clone-of-the-send-side-is-left-open": every_clone_made_here_is_closed(c),
         }
     # raises = {}: adopt must not raise, also while trio is finishing its payloads' cleanup
 
@@ -851,6 +853,45 @@ class accept:
                      c.Implies(c.Not(le.isa("Exception")), exc.t == le.t))
 
     raises = {"BaseException": _as_run}
+
+
+def _hold_the_guard(ctx, I, fn, bound):
+    """after decoration: another accept is active, i.e. the guard that @exclusive() created for accept is held"""
+    from pyvc.values import Closure as _Cl
+
+    guards = []
+    for f in (fn if isinstance(fn, list) else [fn]):
+        env = {}
+        for fr in getattr(f, "env", []):
+            env.update(fr)
+        if env.get("fnc_guard") is not None:
+            guards.append(env["fnc_guard"])
+    ctx.ghost["c12_guards"] = guards          # every guard an @exclusive() in this class created: all held by the active accept
+    for g in guards:
+        ctx.store_raw(ctx.ref_id(g), "held", Z.mk_bool(True))
+
+
+@contract(RUN + "service:ServiceRunner.accept#while-another-accept-is-active", props=["C12"], body_key=RUN + "service:ServiceRunner.accept")
+class accept_rejected:
+    """accept AS DECORATED (the real `exclusive` decorator is run on it), called while another accept holds its guard: RuntimeError, and the
+    runner it was called on - possibly the active one, with a shutdown in flight - is left exactly as it was: no attribute of any existing
+    object is written, nothing is adopted, nothing is run"""
+    decorated = True
+    after_decoration = staticmethod(_hold_the_guard)
+    params = dict(self=SvcR)
+    has_events = True
+    never_returns = True
+
+    def writes(c, self):
+        return []
+
+    def _only_the_refused_acquire(c, self, exc):
+        gs = c.ctx.ghost.get("c12_guards") or []
+        if not gs:
+            return False           # nothing in this class is guarded at all
+        return c.And(exc.isa("RuntimeError"), c.Or(*[c.events_are(c.event("acquire", c.view(g, c.new_heap))) for g in gs]))
+
+    raises = {"RuntimeError": _only_the_refused_acquire}
 
 
 # ================================================================================ service sweep / queue flush (C03)
@@ -1289,7 +1330,12 @@ class base_stop:
                     c.event_at(1) == c.event("on-loop-thread", self.asyncio_loop),
                     c.event_at(2) == c.event("call", RUN + "base_runner:BaseRunner.aclose", self)))}
 
-    raises = {"BaseException": lambda c, self, exc: c.Not(flag(c.old(self._stopped), "isset"))}
+    # an exception leaves stop only as the outcome of aclose having RUN on the loop (stop never gives up waiting for it)
+    raises = {"BaseException": lambda c, self, exc: c.And(
+        c.Not(flag(c.old(self._stopped), "isset")), c.n_events() >= 3,
+        c.event_at(0) == c.event("run_coroutine_threadsafe", self.asyncio_loop, RUN + "base_runner:BaseRunner.aclose", self),
+        c.event_at(1) == c.event("on-loop-thread", self.asyncio_loop),
+        c.event_at(2) == c.event("call", RUN + "base_runner:BaseRunner.aclose", self))}
 
 
 @contract(RUN + "meta_runner:MetaRunner.stop#body", props=["C02", "C12"], body_key=RUN + "meta_runner:MetaRunner.stop")
@@ -1434,7 +1480,12 @@ class unit_init:
             return {"registered-among-the-active-units": False}
         mem = z3.Select(c.ctx.rd(c.new_heap, "$mhas"), Z.Val.id(au.t))
         mem0 = z3.Select(c.ctx.rd(c.old_heap, "$mhas"), Z.Val.id(au.t))
-        return {"refers-to-this-service": REFERENT(self.service.t) == service.t,
+        # publication order: other threads (the polling cycle) find the unit through the set of active units, so it goes there LAST
+        order = [f for f, kind, what in c.ctx.own_stores]
+        first_pub = order.index("$mhas") if "$mhas" in order else len(order)
+        complete_before = all(f in order[:first_pub] for f in ("service", "flavour", "_started"))
+        return {**({"a-unit-becomes-visible-to-the-polling-cycle-only-once-it-is-complete": bool(complete_before)} if getattr(c, "mode", None) == "prove" else {}),
+                "refers-to-this-service": REFERENT(self.service.t) == service.t,
                 "carries-this-flavour": self.flavour.t == flavour.t,
                 "not-started-yet": c.Not(Z.Val.b(self._started.t)),
                 "registered-among-the-active-units-and-nobody-else-is-touched": mem == z3.Store(mem0, self.t, z3.BoolVal(True))}
